@@ -23,6 +23,7 @@ Vars == {None}
         \cup {[fl |-> "code", pl |-> p] : p \in {"ok", "err", "syntax", "imports"}}
         \cup {[fl |-> "strfile", pl |-> p] : p \in {"exists", "missing"}}
         \cup {[fl |-> "codefile", pl |-> p] : p \in {"ok", "imports", "err", "missing"}}
+        \cup {[fl |-> "env", pl |-> p] : p \in {"set", "unset"}}      \* --ext-str name / --tla-str name: value taken from the environment
 JPaths == {"none", "one", "shadow"}            \* -J j1 ; -J j1 -J j2 with lib.libsonnet in both (right-most wins)
 Inputs == {"file", "exec", "stdin"}
 Outputs == {"json", "pad0", "string", "fstring", "fyaml", "ftoml", "ystream", "multi", "multiS", "outfile",
@@ -41,6 +42,7 @@ Den(v, jp) ==
                            [] v.pl = "imports" -> (IF jp = "none" THEN Err                   \* import "lib.libsonnet" needs the search path
                                                     ELSE Val(IF jp = "one" THEN "LIB:one" ELSE "LIB:two")))
     [] v.fl = "strfile" -> (IF v.pl = "exists" THEN Val("S:file text") ELSE Err)            \* file contents, verbatim
+    [] v.fl = "env" -> (IF v.pl = "set" THEN Val("S:from env") ELSE Err)                     \* an unset variable is a usage error
     [] v.fl = "codefile" -> (CASE v.pl = "ok" -> Val("V:six")
                                [] v.pl = "imports" -> Val("V:sibling")                        \* imports a file next to itself
                                [] v.pl \in {"err", "missing"} -> Err)
